@@ -28,11 +28,12 @@ LEVEL = "exploration"
 TIERS = {
     # tables are drawn twice (rules as rows, rules as columns)
     "quick": {"tables": 4092, "chunk": 62, "corruptions_per_drawing": 10, "exhaustive_drawings": 4, "random_texts": 3000, "shipped_reps": 2},
-    "thorough": {"tables": 52000, "chunk": 130, "corruptions_per_drawing": 10, "exhaustive_drawings": 8, "random_texts": 60000, "shipped_reps": 10},
+    "thorough": {"tables": 100100, "chunk": 130, "corruptions_per_drawing": 10, "exhaustive_drawings": 8, "random_texts": 60000, "shipped_reps": 10},
 }
 
 LETTERS = "xU1-\"<"
-CORRUPTION_KINDS = ["box2box", "box2space", "box2letter", "text2box", "delchar", "inschar", "newline", "delline", "dupline", "ragged", "truncate"]
+JUNCTIONS = "┌┐└┘├┤┬┴┼╞╡╪╤╧╟╢╫╥╨╬"
+CORRUPTION_KINDS = ["junction", "box2box", "box2space", "box2letter", "text2box", "delchar", "inschar", "newline", "delline", "dupline", "ragged", "truncate"]
 
 
 # --------------------------------------------------------------------------------------------
@@ -47,8 +48,13 @@ def _err_class(msg):
 
 
 def psig(p):
-    """panic_signature with the frame spelled the same by the stable and the nightly toolchain."""
-    return re.sub(r"<([A-Za-z0-9_:]+)>", r"\1", panic_signature(p))
+    """panic_signature over the first frame that is a function of a dmntk crate (not a std function instantiated
+    with a dmntk type), spelled the same by the stable and the nightly toolchain."""
+    own = [f for f in (p.get("frames") or []) if re.match(r"<?dmntk_\w+::", f)]
+    q = dict(p)
+    if own:
+        q["frame"] = own[0]
+    return re.sub(r"<([A-Za-z0-9_:]+)>", r"\1", panic_signature(q))
 
 
 def _num(s):
@@ -112,8 +118,20 @@ class Acc:
                     break
 
 
-def _run(variant, cases, workdir, label, timeout=120.0):
+def _run(acc, variant, cases, workdir, label, timeout=120.0):
+    """Runs the cases in one driver process. A case whose process died or made no progress for `timeout` s is
+    run once more alone with a 300 s budget (DESIGN: bounded progress, decided by the second run); a stall that
+    does not repeat is only counted (`watchdog_stalls_not_repeated`), every case still gets its observation."""
     res, meta = runner.run_cases(variant, cases, workdir, label=label, nshards=1, case_timeout=timeout)
+    bad = [k for k, r in enumerate(res) if r is None or "timeout" in r or "crash" in r or r.get("missing")]
+    if bad:
+        res2, _ = runner.run_cases(variant, [cases[k] for k in bad], workdir, label=label + ".again", nshards=1, case_timeout=300.0)
+        for k, r in zip(bad, res2):
+            if r is not None and not ("timeout" in r or "crash" in r or r.get("missing")):
+                acc.bump("watchdog_stalls_not_repeated" if "timeout" in (res[k] or {}) else "process_deaths_not_repeated")
+                if "crash" in (res[k] or {}):
+                    acc.inconclusive.append("a driver process died on %s in a case that completes when run again: %s" % (variant, json.dumps(res[k])[:300]))
+            res[k] = r
     return res, meta
 
 
@@ -136,7 +154,7 @@ def run_recog_items(acc, variant, items, workdir, label, brief, batch=100):
             cases.append({"op": "recog", "base": base, "edits": [it[2] for it in items[k:j]], "brief": brief})
         spans.append((k, j))
         k = j
-    results, _ = _run(variant, cases, workdir, label)
+    results, _ = _run(acc, variant, cases, workdir, label)
     out = [None] * len(items)
     for (a, b), res, case in zip(spans, results, cases):
         _harness_ok(res)
@@ -145,7 +163,7 @@ def run_recog_items(acc, variant, items, workdir, label, brief, batch=100):
             continue
         # the batch died (crash / timeout / panic outside the per-item guard): isolate
         singles = [{"op": "recog", "texts": [item_text(items[i])], "brief": brief} for i in range(a, b)]
-        sres, _ = _run(variant, singles, workdir, label + ".iso", timeout=300.0)
+        sres, _ = _run(acc, variant, singles, workdir, label + ".iso", timeout=300.0)
         found = False
         for i, r in zip(range(a, b), sres):
             _harness_ok(r)
@@ -198,6 +216,13 @@ def random_corruption(text, rng, kind):
     chars = text
     n = len(chars)
     box_pos = [i for i, ch in enumerate(chars) if ch in gdraw.BOX_CHARS]
+    if kind == "junction":
+        # a corner / tee / crossing becomes another corner / tee / crossing
+        pos = [i for i in box_pos if chars[i] in JUNCTIONS]
+        if not pos:
+            return None
+        p = rng.choice(pos)
+        return [p, p + 1, rng.choice([c for c in JUNCTIONS if c != chars[p]])]
     if kind in ("box2box", "box2space", "box2letter"):
         if not box_pos:
             return None
@@ -245,12 +270,16 @@ def random_corruption(text, rng, kind):
 
 
 def exhaustive_corruptions(text):
-    """Every position x {space, letter, 6 box characters, deletion}."""
+    """Every position x {space, letter, 6 box characters, deletion}; every junction x every box character."""
     out = []
     for p, ch in enumerate(text):
         if ch == "\n":
             out.append(("delnl", [p, p + 1, ""]))
             continue
+        if ch in JUNCTIONS:
+            for rep in gdraw.BOX_CHARS:
+                if rep != ch and rep not in "┼╬║═┌┘":
+                    out.append(("pos-junction", [p, p + 1, rep]))
         for rep, kind in ((" ", "pos-space"), ("x", "pos-letter"), ("", "pos-delete"), ("┼", "pos-box"), ("╬", "pos-box"), ("║", "pos-box"), ("═", "pos-box"), ("┌", "pos-box"), ("┘", "pos-box")):
             if rep != ch:
                 out.append((kind, [p, p + 1, rep]))
@@ -285,7 +314,7 @@ def chunk_unit(args):
     except runner.Inconclusive as e:
         acc.inconclusive.append(str(e)[:600])
     finally:
-        if not acc.violations and not acc.inconclusive:
+        if not acc.inconclusive:  # replay files carry the complete driver case; the shard files are not needed
             shutil.rmtree(workdir, ignore_errors=True)
     return acc
 
@@ -362,8 +391,8 @@ def _chunk(acc, rng, cfg, first_table, n_tables, workdir, use_asan):
     for a in range(0, len(ditems), 20):
         dcases.append({"op": "dtext", "items": ditems[a : a + 20]})
         dspans.append((a, min(a + 20, len(ditems))))
-    dres, _ = _run("dbg", dcases, workdir, "dtext")
-    mres, _ = _run("dbg", mcases, workdir, "model")
+    dres, _ = _run(acc, "dbg", dcases, workdir, "dtext")
+    mres, _ = _run(acc, "dbg", mcases, workdir, "model")
     drecs = [None] * len(ditems)
     for (a, b), res, case in zip(dspans, dres, dcases):
         _harness_ok(res)
@@ -453,6 +482,10 @@ def corruption_pass(acc, items, kinds, workdir, label, use_asan):
                     acc.bump("error_class:" + _err_class(rec["err"]))
     for variant in variants[1:]:
         for item, kind, a, b in zip(items, kinds, outcomes["dbg"], outcomes[variant]):
+            if a == "bad" and b == "ok" and variant == "rel":
+                # the overflow-checked build panics, the unchecked build goes on and accepts the text
+                text = item_text(item)
+                acc.violation("release-accepts-where-debug-panics:%s" % kind, "debug build panics, release build returns a decision table for the same text", {"kind": "nopanic", "variant": "dbg", "case": {"op": "recog", "texts": [text], "brief": True}, "expected": "a decision table or an error", "observed": "panic"})
             if "bad" in (a, b):
                 continue
             if a != b:
@@ -577,7 +610,8 @@ def arbitrary_unit(args):
             acc.bump("exhaustive_position_corruptions", len(items))
             acc.bump("exhaustive_position_drawings")
         corruption_pass(acc, items, kinds, workdir, "arb", use_asan)
-        shutil.rmtree(workdir, ignore_errors=True) if not acc.violations and not acc.inconclusive else None
+        if not acc.inconclusive:
+            shutil.rmtree(workdir, ignore_errors=True)
     except runner.Inconclusive as e:
         acc.inconclusive.append(str(e)[:600])
     return acc
@@ -681,6 +715,8 @@ def run(rep, tier, seed):
     rep.extra["error_classes_seen"] = group("error_class:")
     rep.extra["exhaustive_position_corruptions"] = counters.get("exhaustive_position_corruptions", 0)
     rep.extra["exhaustive_position_drawings"] = counters.get("exhaustive_position_drawings", 0)
+    rep.extra["enumerated_texts"] = counters.get("enumerated_texts", 0)
+    rep.extra["watchdog_stalls_not_repeated"] = counters.get("watchdog_stalls_not_repeated", 0)
     if asan_ok:
         rep.extra["asan_slice"] = {"status": "run", "recognitions": counters.get("corruptions:asan", 0)}
     # observation floors
@@ -701,6 +737,8 @@ def run(rep, tier, seed):
         rep.inconclusive_reason("renderer self-validation on shipped examples observed too little")
     if rep.undecided > 0.05 * max(1, counters.get("evaluation_comparisons", 0)):
         rep.inconclusive_reason("too many undecided evaluation comparisons (%d)" % rep.undecided)
+    if not rep.inconclusive:
+        shutil.rmtree(workroot, ignore_errors=True)
 
 
 def replay(rp):
